@@ -12,14 +12,14 @@ ASSUME = ["every instance: serialize() compared byte for byte with an independen
 
 def simple(which, plen, mlen, rt):
     name = "c11_%s_p%d_m%d_%s" % (["ack", "data", "error"][which], plen, mlen, "rt" if rt else "lay")
-    return Inst(name, "packet", "c11_simple!(%s, %d, %d, %d, %s, 24);" % (name, which, plen, mlen, "true" if rt else "false"), "c11_simple",
+    return Inst(name, "packet", "c11_simple!(%s, %d, %d, %d, %s, 34);" % (name, which, plen, mlen, "true" if rt else "false"), "c11_simple",
                 {"kind": ["ACK", "DATA", "ERROR"][which], "block/error number": "any u16 / 0..7", "payload_len": plen, "message_len": mlen,
                  "round_trip": rt}, timeout=900)
 
 
 def request(kind, fl, ml, nopt, ocode, vlo, vhi, rt, timeout=900, mem_kb=None):
     name = "c11_%s_f%d_m%d_o%d_t%d_v%d_%d_%s" % ({1: "rrq", 2: "wrq", 6: "oack"}[kind], fl, ml, nopt, ocode, vlo, vhi, "rt" if rt else "lay")
-    return Inst(name, "packet", "c11_request!(%s, %d, %d, %d, %d, %d, %d, %d, %s, 24);" % (name, kind, fl, ml, nopt, ocode, vlo, vhi, "true" if rt else "false"),
+    return Inst(name, "packet", "c11_request!(%s, %d, %d, %d, %d, %d, %d, %d, %s, 34);" % (name, kind, fl, ml, nopt, ocode, vlo, vhi, "true" if rt else "false"),
                 "c11_request",
                 {"kind": kind, "filename_len": fl, "mode_len": ml, "options": nopt, "option_type": "symbolic" if ocode > 3 else "concrete (%d, then cyclic)" % ocode,
                  "value_range": [vlo, vhi], "round_trip": rt}, timeout=timeout, mem_kb=mem_kb or 10 * 1024 * 1024)
